@@ -163,12 +163,15 @@ Track(a, times, n) ==
       dM == IF surf THEN Disp(a.vM, dtc) \div 16 ELSE Disp(a.vM, dt)
   IN  << ClampL(a.pL + dL), WrapM(a.pM + dM), IF surf THEN 1 ELSE 0 >>
 
+\* aircraft 3 and 4 are sent as DF18 (TIS-B / non-transponder) frames by the harness: in half of the
+\* scenarios they are the first two aircraft, so that two DF18 targets are interleaved
+AcId(k, i) == IF R(k, 10) % 2 = 0 THEN << 3, 4, 1, 2 >>[i] ELSE i
 Reports(k, i) ==
   LET times == TimesOf(k, i, NREP)
       a == AC(k, i, times)
   IN  [n \in 1..NREP |->
          LET p == Track(a, times, n)
-         IN  Rep(i, times[n], p[3], R(k, i * 200 + n * 3 + 2) % 2, p[1], p[2], NONE)]
+         IN  Rep(AcId(k, i), times[n], p[3], R(k, i * 200 + n * 3 + 2) % 2, p[1], p[2], NONE)]
 
 \* all aircraft, merged by time
 RECURSIVE Concat(_, _, _)
